@@ -28,6 +28,7 @@ func C01Params(thorough bool) harness.GenParams {
 	p := harness.GenParams{MaxItems: 10, MaxOps: 8, Reopen: true, Stall: true, MaxPages: 96, NoFill: false}
 	if thorough {
 		p.MaxItems, p.MaxOps, p.MaxPages = 30, 10, 200
+		p.HugeTx = true // histories with > 1024 queued page writes (expensive: thousands of pages per image)
 	}
 	return p
 }
@@ -38,7 +39,7 @@ func crashParams(thorough bool, seed uint64) harness.CrashParams {
 		for i := 1; i < 84; i++ {
 			cuts = append(cuts, i)
 		}
-		return harness.CrashParams{MaxFull: 7, Random: 40, TornCuts: cuts, SuffixEvery: 12, MaxImages: 60000, Seed: seed}
+		return harness.CrashParams{MaxFull: 7, Random: 40, TornCuts: cuts, SuffixEvery: 12, MaxImages: 20000, Seed: seed}
 	}
 	return harness.CrashParams{MaxFull: 5, Random: 6, TornCuts: []int{1, 20, 40, 60, 83}, SuffixEvery: 50, MaxImages: 12000, Seed: seed}
 }
